@@ -694,7 +694,7 @@ func (i *Snapshot) readSegmentSnapshot(br *bufio.Reader) (bytesRead int64, ss *s
 
 func readVarLenString(r *bufio.Reader) (n int, str string, err error) {
 	peek, err := r.Peek(binary.MaxVarintLen64)
-	if err != nil {
+	if err != nil && err != io.EOF {
 		return n, "", err
 	}
 	strLen, uVarRead := binary.Uvarint(peek)
